@@ -61,6 +61,10 @@ func (p Parser) HandleRawSQLQuery(sql string) (normalizedQuery, redactedQuery st
 	if err != nil {
 		return "", "", nil, ErrQuerySyntaxError
 	}
+	if _, notParsed := stmt.(NotParsedStatement); notParsed {
+		// in the tolerant mode Parse wraps the text of a statement it cannot parse: that text has no redacted form
+		return "", "", nil, ErrQuerySyntaxError
+	}
 	outputStmt, _ := p.Parse(sqlStripped)
 
 	normalizedQ := String(stmt)
